@@ -32,6 +32,50 @@ let with_call (f : string list -> expr list -> (string option * expr) list -> br
        | None -> "NOTCLASS")
   | _ -> "NOTCALL"
 
+
+(* ---------- values and environments, for the cross-check of Base/Eval.v against CPython ---------- *)
+
+let rec value_of (x : sx) : value =
+  match x with
+  | A "N" -> VNone
+  | L [A "I"; A d] -> VInt (z_of_dec d)
+  | L [A "B"; A b] -> VBool (b = "1")
+  | L [A "S"; A h] -> VStr (unhx h)
+  | L (A "L" :: vs) -> VList (List.map value_of vs)
+  | L (A "T" :: vs) -> VTuple (List.map value_of vs)
+  | _ -> failwith "value"
+
+let rec str_value (v : value) : string =
+  match v with
+  | VNone -> "N"
+  | VInt z -> "(I " ^ z_to_string z ^ ")"
+  | VBool b -> if b then "(B 1)" else "(B 0)"
+  | VStr s -> "(S " ^ hx s ^ ")"
+  | VList l -> "(L" ^ String.concat "" (List.map (fun v -> " " ^ str_value v) l) ^ ")"
+  | VTuple l -> "(T" ^ String.concat "" (List.map (fun v -> " " ^ str_value v) l) ^ ")"
+  | VDict (ks, vs) -> "(D (" ^ String.concat " " (List.map str_value ks) ^ ") (" ^ String.concat " " (List.map str_value vs) ^ "))"
+  | VObj _ -> "(O)"
+
+let env_of (x : sx) : env =
+  List.map (function L [A h; v] -> (unhx h, value_of v) | _ -> failwith "env") (lst x)
+
+(* the three Python builtins the evaluable grammar uses besides len: a backend for [eval] *)
+let py_backend : backend =
+  { attr_sem = (fun _ _ -> None);
+    meth_sem = (fun _ _ _ _ -> None);
+    fun_sem = (fun name args kws ->
+      match name, args, kws with
+      | "sum", [VList l], [] ->
+          List.fold_left (fun acc v -> match acc, as_int v with
+                                       | Some (VInt a), Some b -> Some (VInt (Z.add a b))
+                                       | _, _ -> None) (Some (VInt Z0)) l
+      | "any", [VList l], [] -> Some (VBool (List.exists truthy l))
+      | "abs", [VInt z], [] -> Some (VInt (Z.max z (Z.opp z)))
+      | _ -> None) }
+
+let ops_sw = ["Select"; "Where"]
+let str_ovalue = function Some v -> "OK " ^ str_value v | None -> "NONE"
+
 let b2s b = if b then "1" else "0"
 
 let handle (cmd : string) (args : string list) : string =
@@ -44,6 +88,11 @@ let handle (cmd : string) (args : string list) : string =
   | "preds", [e] ->
       let x = expr_of (parse e) in
       "OK " ^ b2s (single_for x) ^ b2s (no_comp x) ^ b2s (gens_ok x) ^ b2s (has_bad_comp x)
+  | "eval", [e; env] -> str_ovalue (eval py_backend ops_sw (env_of (parse env)) (expr_of (parse e)))
+  | "evallow", [e; env] ->
+      (match sugar (expr_of (parse e)) with
+       | Ok e' -> str_ovalue (eval py_backend ops_sw (env_of (parse env)) e')
+       | Err _ -> "NOTLOWERED")
   | "size", [e] -> string_of_int (int_of_nat (size (expr_of (parse e))))
   | "echo", [e] -> "OK " ^ str_expr (expr_of (parse e))
   | _ -> "BADCMD " ^ cmd
